@@ -326,7 +326,7 @@ func C09(tier string) int {
 		}
 	}
 	nScripts := len(c09Scripts(tier))
-	run.Rule = fmt.Sprintf("SERVER HALF: explicit-state BFS to a fixpoint (engine of C03) over the alphabet {EHLO, NOOP, MAIL, RSET, STARTTLS, AUTH without argument, %d scripted AUTH exchanges} x 12 configurations (TLS {plaintext, STARTTLS available, implicit TLS} x AllowInsecureAuth x backend {AuthSession, plain}). AUTH exchanges: mechanisms of 1..3 rounds (+ empty/binary challenges, lower-case name, unknown mechanism) x initial response {absent, values, '=', bad base64} x per later round {values, '*', bad base64}; values in {good, bad, empty, NUL, 0xFF 0xFE, 57+ octets}. A recording sasl.Server logs every Next argument (nil vs empty distinguished); each transition is compared with the reference model: not permitted => 5xx and ZERO octets to the mechanism, needs greeting, second success impossible (503), STARTTLS erases it, failed/malformed/cancelled => unauthenticated and in command mode, 334 carries exactly the challenge, mechanism input == base64-decoding of what was sent. FAILED HANDSHAKE: STARTTLS answered 220, then the client sends octets that are not a TLS handshake (5 kinds: text, a command, a broken handshake record, an alert, an SSLv2-style header) x AllowInsecureAuth x greeted/not (and, with AllowInsecureAuth, authenticated before: still the same authenticated session, a second AUTH gets 503): the connection is still plaintext - AUTH not advertised nor accepted, zero octets to the mechanism, no TLS state visible to NewSession, STARTTLS still offered. CLIENT HALF: scripted sasl.Client x server mechanisms of 1..3 rounds x challenge kinds x responses x {success, server failure, client error at round k, Start error}, real client <-> real server: both sides log exactly the other's octets; client error => '*' sent, connection usable, still unauthenticated (a fresh AUTH succeeds); result == server's final reply; after success a second Auth gets 503.", nScripts)
+	run.Rule = fmt.Sprintf("SERVER HALF: explicit-state BFS to a fixpoint (engine of C03) over the alphabet {EHLO, NOOP, MAIL, RSET, STARTTLS, AUTH without argument, %d scripted AUTH exchanges} x 12 configurations (TLS {plaintext, STARTTLS available, implicit TLS} x AllowInsecureAuth x backend {AuthSession, plain}). AUTH exchanges: mechanisms of 1..3 rounds (+ empty/binary challenges, lower-case name, unknown mechanism) x initial response {absent, values, '=', bad base64} x per later round {values, '*', bad base64}; values in {good, bad, empty, NUL, 0xFF 0xFE, 57+ octets}. A recording sasl.Server logs every Next argument (nil vs empty distinguished); each transition is compared with the reference model: not permitted => 5xx and ZERO octets to the mechanism, needs greeting, second success impossible (503), STARTTLS erases it, failed/malformed/cancelled => unauthenticated and in command mode, 334 carries exactly the challenge, mechanism input == base64-decoding of what was sent. ALL PAIRS of AUTH exchanges behind one EHLO, without deduplication by state, each judged against the model. FAILED HANDSHAKE: STARTTLS answered 220, then the client sends octets that are not a TLS handshake (5 kinds: text, a command, a broken handshake record, an alert, an SSLv2-style header) x AllowInsecureAuth x greeted/not (and, with AllowInsecureAuth, authenticated before: still the same authenticated session, a second AUTH gets 503): the connection is still plaintext - AUTH not advertised nor accepted, zero octets to the mechanism, no TLS state visible to NewSession, STARTTLS still offered. CLIENT HALF: scripted sasl.Client x server mechanisms of 1..3 rounds x challenge kinds x responses x {success, server failure, client error at round k, Start error}, real client <-> real server: both sides log exactly the other's octets; client error => '*' sent, connection usable, still unauthenticated (a fresh AUTH succeeds); result == server's final reply; after success a second Auth gets 503.", nScripts)
 	run.Assumptions = []string{"the insecure-AUTH reply code (523) is not fixed by the statement: any 5xx is accepted", "bad base64 may be answered 4xx or 5xx"}
 	for _, pc := range cfgs {
 		alpha := c09Alphabet(pc, tier)
@@ -347,6 +347,38 @@ func C09(tier string) int {
 		})
 		run.State(int64(st.States))
 		fmt.Printf("  config %+v: states=%d transitions=%d depth=%d\n", pc, st.States, st.Transitions, st.MaxDepth)
+	}
+	// ALL PAIRS of AUTH exchanges on one greeted connection (no deduplication by state: whatever the first exchange -
+	// refused mechanism, bad base64, cancelled, failed, successful - leaves behind, in a field the state key may not
+	// show, meets every second exchange), each history judged against the model like any other
+	{
+		pc := ref.PConfig{AllowInsecureAuth: true, AuthBackend: true}
+		alpha := c09Alphabet(pc, tier)
+		var auths []int
+		ehlo := -1
+		for i, a := range alpha {
+			if a.Op == "AUTH" {
+				auths = append(auths, i)
+			}
+			if a.Op == "HELLO" && ehlo < 0 {
+				ehlo = i
+			}
+		}
+		h.ParallelFor(len(auths)*len(auths), func(k int) {
+			if run.Expired() {
+				return
+			}
+			hist := []int{ehlo, auths[k/len(auths)], auths[k%len(auths)]}
+			r := runLockstep("c09", pc, alpha, hist)
+			run.Eval(true)
+			run.Trace(1)
+			if r.Finding != nil {
+				c := bfsCase{PC: pc, Hist: hist, Names: histNames(alpha, hist), Prefix: "c09", Tier: run.Tier}
+				run.Violate("bfs", c, r.Finding, func() *h.Finding { return replayBFS(c) })
+				run.Outcome("violation:" + r.Finding.Sig)
+			}
+		})
+		run.Counter("auth_exchange_pairs", int64(len(auths)*len(auths)))
 	}
 	c09FailedHandshakes(run)
 	for _, ch := range []string{"abc", "ab", "a", "YWJj=", "-_8=", "not base64!", "YW Jj", "=", "YWJjZA", "\xff\xfe"} {
